@@ -1009,5 +1009,11 @@ pub fn run_case<P: Payload>(case: Rc<Case>, log: Log) {
     for t in tids {
         rt::join(t);
     }
+    if case.main_keeps_roots {
+        for op in case.epilogue.iter() {
+            main.run_op(idx, op);
+            idx += 1;
+        }
+    }
     main.finish(idx);
 }
